@@ -75,6 +75,8 @@ CLAIMS.update({
          'obligations with NO validity precondition on the input, for: find_hash_table_section_index, '
          'lookup_symbol_from_sysv_hash_tab, setup_gnu_ht, bloom_word_at, get_elf_class_size_in_bytes, '
          'lookup_symbol_from_gnu_hash_tab (arbitrary section content and size up to 16 MiB, arbitrary symbols, any libelf call may '
+         'fail), lookup_symbol_from_symtab and the program-header loop body of lookup_data_tag_from_dynamic_segment (any header, '
+         'sh_entsize / entry size 0 included, sections below 2 GiB, any entries, any libelf call may '
          'fail), get_version_definition_for_versym (arbitrary version-definition section), the stt/stb/stv mappings and the per-symbol region of symtab::load_ (every st_info/st_other/st_shndx, names already recorded '
          'as exported / with a CRC, a COMMON symbol whose name other symbols carry (bounded: <= 3), a <name>.cfi symbol with any '
          'number of symbols called <name>), read_and_convert_DW_at_bit_offset and die_member_offset on ANY member DIE (attributes present '
@@ -82,7 +84,7 @@ CLAIMS.update({
          'lookups assert). Loops are '
          'closed by inductive loop contracts (loop-rule generator).',
          'Scoped to those functions (incl. get_version_needed_for_versym and get_version_for_symbol). libelf/libdw are a ghost model; '
-         'lookup_symbol_from_symtab, the rest of the DWARF reader and the rest of symtab::load_ are not decided; signed overflow of a '
+         'the rest of the DWARF reader and the rest of symtab::load_ are not decided; signed overflow of a '
          'member byte offset >= 2^60 is excluded (undefined behaviour, not a crash: C35).', '5 C34'),
  'C37': ('proof',
          'find_hash_table_section_index: for every section list in any order the reported kind is GNU iff a SHT_GNU_HASH exists '
